@@ -9,7 +9,7 @@ package types
 
 //verif:property C03
 //verif:bound every field of the list below on transactions of 1 input (spend, issuance, veto or coinbase) x 1 output (original or vote; retirement when the program starts with OP_FAIL); thorough tier: one field per entry type also on 2 inputs x 2 outputs where the input / output under test is placed first or second next to an arbitrary spend input / original output; order: swap of two inputs (2x1) or two outputs (1x2); every integer field is an arbitrary 64-bit value, hashes/asset ids arbitrary 256-bit values
-//verif:bound the field under test: byte strings of 0..2 (quick) / 0..3 (thorough) arbitrary bytes, state data / argument lists of 0..2 items of 0..2 bytes; all other byte strings have a fixed length of 1 byte (2 for programs; thorough: also 0..2 symbolic) with arbitrary content, state data 1 item
+//verif:bound the field under test: byte strings of 0..2 (quick) / 0..3 (thorough) arbitrary bytes, state data / argument lists that are empty, one item of 0..2 bytes or two items of 1 byte; all other byte strings have a fixed length of 1 byte (2 for programs; thorough: also 0..2 symbolic) with arbitrary content, state data 1 item
 //verif:bound block headers: all five hashed fields arbitrary; witness 0..2 bytes, 0..1 sup links with signatures of 0..1 bytes; transaction lists of 1..4 arbitrary ids
 //verif:assume SHA3-256 is an uninterpreted function without collisions
 //verif:assume a transaction has at least one output (validation rejects a version-1 header without results: ErrEmptyResults); without outputs the ID does not depend on the inputs at all
@@ -210,6 +210,23 @@ func (out *verifC03Out) txOutput() *TxOutput {
 	return t
 }
 
+// an arbitrary 256-bit value that differs from h in (at least) one chosen 64-bit word;
+// the four choices together cover every value different from h
+func verifC03OtherHash(name string, h bc.Hash) bc.Hash {
+	o := verifC03Hash(name)
+	switch verifChoice(name+"Word", 4) {
+	case 0:
+		verifAssume(o.V0 != h.V0)
+	case 1:
+		verifAssume(o.V1 != h.V1)
+	case 2:
+		verifAssume(o.V2 != h.V2)
+	default:
+		verifAssume(o.V3 != h.V3)
+	}
+	return o
+}
+
 // two arbitrary byte strings of 0..max bytes that differ
 func verifC03TwoBytes(name string, max int) ([]byte, []byte) {
 	a := verifBytes(name, max)
@@ -218,16 +235,24 @@ func verifC03TwoBytes(name string, max int) ([]byte, []byte) {
 	return a, b
 }
 
-// two arbitrary lists (0..2 items of 0..2 bytes); differ: they are assumed to differ
+// two arbitrary lists: empty, one item of 0..2 bytes, or two items of 1 byte each; differ: they are assumed to differ
 func verifC03TwoLists(name string, differ bool) ([][]byte, [][]byte) {
 	n1 := verifChoice(name+"Len", 3)
 	n2 := verifChoice(name+"Len'", 3)
 	var l1, l2 [][]byte
 	for i := 0; i < n1; i++ {
-		l1 = append(l1, verifBytes(name, 2))
+		if n1 == 1 {
+			l1 = append(l1, verifBytes(name, 2))
+		} else {
+			l1 = append(l1, verifBytesN(name, 1))
+		}
 	}
 	for i := 0; i < n2; i++ {
-		l2 = append(l2, verifBytes(name+"'", 2))
+		if n2 == 1 {
+			l2 = append(l2, verifBytes(name+"'", 2))
+		} else {
+			l2 = append(l2, verifBytesN(name+"'", 1))
+		}
 	}
 	if differ && n1 == n2 {
 		verifAssume(n1 > 0)
@@ -286,13 +311,11 @@ func verifC03TxField(inKind int, outKind int, field int, max int, free int, widt
 		witness = true
 
 	case verifC03FSourceID:
-		in2.sourceID = verifC03Hash("sourceID'")
-		verifAssume(in2.sourceID != in1.sourceID)
+		in2.sourceID = verifC03OtherHash("sourceID'", in1.sourceID)
 	case verifC03FSourcePos:
 		in1.sourcePos, in2.sourcePos = verifC03TwoU64("sourcePos")
 	case verifC03FAsset:
-		in2.asset = verifC03Asset("asset'")
-		verifAssume(in2.asset != in1.asset)
+		in2.asset = bc.AssetID(verifC03OtherHash("asset'", bc.Hash(in1.asset)))
 	case verifC03FAmount, verifC03FIssAmount:
 		in1.amount, in2.amount = verifC03TwoU64("amount")
 	case verifC03FProgram, verifC03FIssProgram:
@@ -311,8 +334,7 @@ func verifC03TxField(inKind int, outKind int, field int, max int, free int, widt
 		in1.arbitrary, in2.arbitrary = verifC03TwoBytes("arbitrary", max)
 
 	case verifC03FOutAsset:
-		out2.asset = verifC03Asset("outAsset'")
-		verifAssume(out2.asset != out1.asset)
+		out2.asset = bc.AssetID(verifC03OtherHash("outAsset'", bc.Hash(out1.asset)))
 	case verifC03FOutAmount:
 		out1.amount, out2.amount = verifC03TwoU64("outAmount")
 	case verifC03FOutProgram:
@@ -384,10 +406,10 @@ func verifC03TxField(inKind int, outKind int, field int, max int, free int, widt
 	}
 }
 
-// VerifC03TxOrder: swapping two different inputs (what=0..3: both spends that
-// differ in amount / a spend and an issuance / a spend and a veto / a spend and
-// a coinbase) or two different outputs (what=0: originals that differ in
-// amount; 1: an original and a vote output) changes the ID.
+// VerifC03TxOrder: swapping two different inputs (what=0..3: two spends with
+// control programs of 2 and 1 bytes / a spend and an issuance / a spend and a
+// veto / a spend and a coinbase) or two different outputs (what=0: originals
+// with programs of 2 and 1 bytes; 1: an original and a vote output) changes the ID.
 func VerifC03TxOrder(side int, what int) {
 	retired := false
 	a := verifC03NewIn(verifC03Spend, 0)
@@ -398,8 +420,9 @@ func VerifC03TxOrder(side int, what int) {
 		var b verifC03In
 		switch what {
 		case 0:
+			// a second spend with a control program of a different length (so the two inputs differ)
 			b = verifC03NewIn(verifC03Spend, 0)
-			verifAssume(a.amount != b.amount)
+			b.program = verifBytesN("shortProgram", 1)
 		case 1:
 			b = verifC03NewIn(verifC03Issuance, 0)
 		case 2:
@@ -414,7 +437,8 @@ func VerifC03TxOrder(side int, what int) {
 	} else {
 		y := verifC03NewOut(what, 0)
 		if what == 0 {
-			verifAssume(x.amount != y.amount)
+			// a second original output with a control program of a different length
+			y.program = verifBytesN("shortOutProgram", 1)
 		}
 		// KF: two retirements differ only in their value source; with equal asset and amount the swap is invisible
 		if verifC03Unspendable(x.program) {
@@ -461,13 +485,11 @@ func VerifC03Header(field int) {
 	case 1:
 		h1.Height, h2.Height = verifC03TwoU64("height")
 	case 2:
-		h2.PreviousBlockHash = verifC03Hash("prev'")
-		verifAssume(h2.PreviousBlockHash != h1.PreviousBlockHash)
+		h2.PreviousBlockHash = verifC03OtherHash("prev'", h1.PreviousBlockHash)
 	case 3:
 		h1.Timestamp, h2.Timestamp = verifC03TwoU64("timestamp")
 	case 4:
-		h2.TransactionsMerkleRoot = verifC03Hash("root'")
-		verifAssume(h2.TransactionsMerkleRoot != h1.TransactionsMerkleRoot)
+		h2.TransactionsMerkleRoot = verifC03OtherHash("root'", h1.TransactionsMerkleRoot)
 	case 5:
 		h2.BlockWitness = BlockWitness(verifBytes("witness'", 2))
 	case 6:
@@ -499,8 +521,7 @@ func VerifC03BlockTxID(n int) {
 		id := verifC03Hash("txID")
 		txs1 = append(txs1, &bc.Tx{ID: id})
 		if i == k {
-			id2 := verifC03Hash("txID'")
-			verifAssume(id2 != id)
+			id2 := verifC03OtherHash("txID'", id)
 			txs2 = append(txs2, &bc.Tx{ID: id2})
 		} else {
 			txs2 = append(txs2, &bc.Tx{ID: id})
